@@ -1,0 +1,148 @@
+//! Verification hook (only with `--cfg raqote_verif`): an API-level call recorder.
+//!
+//! When the environment variable `RAQOTE_VERIF_TRACE` names a directory, every public
+//! `DrawTarget` call appends one JSON line to `<dir>/<thread name>.ndjson` holding the target's
+//! id and size, its pixels *before* the call and the call with its arguments. Calls made by the
+//! library itself while inside a public call (e.g. `stroke` calling `fill`) are not recorded.
+//! Floats are written as strings in their shortest round-trip form.
+use crate::*;
+use std::cell::Cell;
+use std::fmt::Write as _;
+use std::io::Write as _;
+
+thread_local! {
+    static DEPTH: Cell<u32> = Cell::new(0);
+    static NEXT_ID: Cell<u64> = Cell::new(1);
+}
+
+fn dir() -> Option<std::path::PathBuf> {
+    std::env::var_os("RAQOTE_VERIF_TRACE").map(std::path::PathBuf::from)
+}
+
+fn write_line(line: &str) {
+    if let Some(d) = dir() {
+        let t = std::thread::current();
+        let name: String = t.name().unwrap_or("unnamed").chars().map(|c| if c.is_alphanumeric() || c == '_' { c } else { '.' }).collect();
+        if let Ok(mut f) = std::fs::OpenOptions::new().create(true).append(true).open(d.join(format!("{}.ndjson", name))) {
+            let _ = writeln!(f, "{}", line);
+        }
+    }
+}
+
+/// A new target: returns its id and records its size.
+pub(crate) fn new_id(w: i32, h: i32) -> u64 {
+    let id = NEXT_ID.with(|n| {
+        let v = n.get();
+        n.set(v + 1);
+        v
+    });
+    if DEPTH.with(|d| d.get()) == 0 {
+        write_line(&format!("{{\"id\":{},\"w\":{},\"h\":{},\"call\":{{\"op\":\"new\"}}}}", id, w, h));
+    }
+    id
+}
+
+pub(crate) struct Guard(bool);
+impl Drop for Guard {
+    fn drop(&mut self) {
+        if self.0 {
+            DEPTH.with(|d| d.set(d.get() - 1));
+        }
+    }
+}
+
+/// Record a public call (if recording is on and this is not a nested call).
+pub(crate) fn enter(id: u64, w: i32, h: i32, buf: &[u32], call: impl FnOnce() -> String) -> Guard {
+    if dir().is_none() {
+        return Guard(false);
+    }
+    let depth = DEPTH.with(|d| {
+        let v = d.get();
+        d.set(v + 1);
+        v
+    });
+    if depth == 0 {
+        let mut s = String::new();
+        let _ = write!(s, "{{\"id\":{},\"w\":{},\"h\":{},\"pix\":{},\"call\":{}}}", id, w, h, pixels(buf), call());
+        write_line(&s);
+    }
+    Guard(true)
+}
+
+pub(crate) fn f(x: f32) -> String {
+    format!("\"{:?}\"", x)
+}
+
+pub(crate) fn px(p: u32) -> String {
+    format!("[{},{},{},{}]", p >> 24, (p >> 16) & 255, (p >> 8) & 255, p & 255)
+}
+
+pub(crate) fn pixels(buf: &[u32]) -> String {
+    let v: Vec<String> = buf.iter().map(|p| px(*p)).collect();
+    format!("[{}]", v.join(","))
+}
+
+pub(crate) fn transform(t: &Transform) -> String {
+    format!("\"m\":[{},{},{},{},{},{}],\"mden\":1", f(t.m11), f(t.m12), f(t.m21), f(t.m22), f(t.m31), f(t.m32))
+}
+
+pub(crate) fn path(p: &Path) -> String {
+    let ops: Vec<String> = p.ops.iter().map(|op| match op {
+        PathOp::MoveTo(a) => format!("[\"M\",{},{}]", f(a.x), f(a.y)),
+        PathOp::LineTo(a) => format!("[\"L\",{},{}]", f(a.x), f(a.y)),
+        PathOp::QuadTo(a, b) => format!("[\"Q\",{},{},{},{}]", f(a.x), f(a.y), f(b.x), f(b.y)),
+        PathOp::CubicTo(a, b, c) => format!("[\"C\",{},{},{},{},{},{}]", f(a.x), f(a.y), f(b.x), f(b.y), f(c.x), f(c.y)),
+        PathOp::Close => "[\"Z\"]".to_string(),
+    }).collect();
+    format!("{{\"ops\":[{}],\"winding\":\"{:?}\"}}", ops.join(","), p.winding)
+}
+
+pub(crate) fn opts(o: &DrawOptions) -> String {
+    format!("{{\"blend\":\"{:?}\",\"alpha\":{},\"aa\":{}}}", o.blend_mode, f(o.alpha), o.antialias == AntialiasMode::Gray)
+}
+
+pub(crate) fn style(s: &StrokeStyle) -> String {
+    let d: Vec<String> = s.dash_array.iter().map(|x| f(*x)).collect();
+    let dash = if d.is_empty() { String::new() } else { format!(",\"dash\":[{}],\"dash_offset\":{}", d.join(","), f(s.dash_offset)) };
+    format!("{{\"width\":{},\"cap\":\"{:?}\",\"join\":\"{:?}\",\"miter\":{}{}}}", f(s.width), s.cap, s.join, f(s.miter_limit), dash)
+}
+
+pub(crate) fn image(i: &Image) -> String {
+    format!("{{\"w\":{},\"h\":{},\"data\":{}}}", i.width, i.height, pixels(i.data))
+}
+
+fn stops(g: &Gradient) -> String {
+    let v: Vec<String> = g.stops.iter().map(|s| format!("[{},[{},{},{},{}]]", f(s.position), s.color.a(), s.color.r(), s.color.g(), s.color.b())).collect();
+    format!("[{}]", v.join(","))
+}
+
+fn spread(s: &Spread) -> &'static str {
+    match s {
+        Spread::Pad => "Pad",
+        Spread::Repeat => "Repeat",
+        Spread::Reflect => "Reflect",
+    }
+}
+
+pub(crate) fn source(s: &Source) -> String {
+    match s {
+        Source::Solid(c) => format!("{{\"kind\":\"solid\",\"c\":[{},{},{},{}]}}", c.a, c.r, c.g, c.b),
+        Source::Image(i, e, fl, t) => format!(
+            "{{\"kind\":\"image\",\"img\":{},\"extend\":\"{}\",\"filter\":\"{}\",{}}}",
+            image(i),
+            match e { ExtendMode::Pad => "Pad", ExtendMode::Repeat => "Repeat" },
+            match fl { FilterMode::Bilinear => "Bilinear", FilterMode::Nearest => "Nearest" },
+            transform(t)
+        ),
+        Source::LinearGradient(g, sp, t) => format!("{{\"kind\":\"linear_raw\",\"stops\":{},\"spread\":\"{}\",{}}}", stops(g), spread(sp), transform(t)),
+        Source::RadialGradient(g, sp, t) => format!("{{\"kind\":\"radial_raw\",\"stops\":{},\"spread\":\"{}\",{}}}", stops(g), spread(sp), transform(t)),
+        Source::TwoCircleRadialGradient(g, sp, c1, r1, c2, r2, t) => format!(
+            "{{\"kind\":\"two_circle_raw\",\"stops\":{},\"spread\":\"{}\",\"c1\":[{},{}],\"r1\":{},\"c2\":[{},{}],\"r2\":{},{}}}",
+            stops(g), spread(sp), f(c1.x), f(c1.y), f(*r1), f(c2.x), f(c2.y), f(*r2), transform(t)
+        ),
+        Source::SweepGradient(g, sp, a0, a1, t) => format!(
+            "{{\"kind\":\"sweep_raw\",\"stops\":{},\"spread\":\"{}\",\"start_angle\":{},\"end_angle\":{},{}}}",
+            stops(g), spread(sp), f(*a0), f(*a1), transform(t)
+        ),
+    }
+}
